@@ -54,12 +54,31 @@ func cmdCrashChild(f hx.Flags, r *hx.Result) {
 	default:
 		cfg["appender.out.type"] = "Console"
 	}
-	cfg["appender.out.layout.type"] = layout
-	cfg.AddLogger("lg", "Logger", "", "crash_tag", []sys.Ref{{Ref: "out"}}, false, nil)
+	ex := map[string]string{}
+	if f.Str("layoutat", "appender") == "logger" {
+		ex["layout.type"] = layout // the logger formats and hands bytes to the appender's Write
+	} else {
+		cfg["appender.out.layout.type"] = layout
+	}
+	cfg.AddLogger("lg", "Logger", "", "crash_tag", []sys.Ref{{Ref: "out"}}, false, ex)
+	handle := log.GetLogger("lg")
+	if kind == "rolling" && f.Str("churn", "") != "" {
+		// every clock reading is one interval later than the previous one: every call rotates, and the
+		// rotating goroutine dawdles between closing the older file and publishing the new one
+		var tick int64
+		base := time.Now().Truncate(time.Hour)
+		log.VerifNow = func(time.Time) time.Time { return base.Add(time.Duration(atomic.AddInt64(&tick, 1)) * time.Hour) }
+		log.VerifRoll = func(_ *log.RollingFileAppender, p int) {
+			if p == 3 || p == 4 {
+				time.Sleep(200 * time.Microsecond)
+			}
+		}
+	}
 	if err := log.Refresh(cfg.Map(nil)); err != nil {
 		fmt.Fprintln(os.Stderr, "child refresh:", err)
 		os.Exit(7)
 	}
+	rawEvery := f.Int("rawevery", 0)
 	var acks int64
 	var mu sync.Mutex
 	var wg sync.WaitGroup
@@ -70,7 +89,12 @@ func cmdCrashChild(f hx.Flags, r *hx.Result) {
 			defer wg.Done()
 			for i := 1; i <= calls; i++ {
 				id := int64(g*1000 + i)
-				log.Info(ctx, tag, log.Int("id", id), log.String("pad", crashPad(id)), log.Int("end", id))
+				if rawEvery > 0 && i%rawEvery == 0 {
+					// a raw write through the named handle is a log call too; give it the shape of a text line
+					_, _ = handle.Write([]byte(fmt.Sprintf("[RAW] id=%d||pad=%s||end=%d\n", id, crashPad(id), id)))
+				} else {
+					log.Info(ctx, tag, log.Int("id", id), log.String("pad", crashPad(id)), log.Int("end", id))
+				}
 				// the call has returned: acknowledge it
 				mu.Lock()
 				fmt.Fprintf(ack, "ack %d\n", id)
@@ -121,6 +145,15 @@ func cmdCrash(f hx.Flags, r *hx.Result) {
 			_ = os.MkdirAll(dir, 0o755)
 			args := []string{"crashchild", "--kind", kind, "--layout", layout, "--dir", dir,
 				"--goroutines", strconv.Itoa(c.Goroutines), "--calls", strconv.Itoa(c.Calls)}
+			if n%2 == 0 {
+				args = append(args, "--layoutat", "logger")
+			}
+			if n%3 == 0 && layout == "TextLayout" {
+				args = append(args, "--rawevery", "3")
+			}
+			if kind == "rolling" && n%4 < 2 {
+				args = append(args, "--churn", "1")
+			}
 			if c.How == "exit" {
 				args = append(args, "--exitafter", strconv.Itoa(c.K))
 			} else {
